@@ -21,6 +21,7 @@ func init() {
 // ---------------------------------------------------------------- R-mangle-unique
 
 func ruleR2MangleUnique(c *Ctx) []Obligation {
+	r2LoopCtx = c
 	p := c.Pkg("homescript/compiler")
 	info := p.TypesInfo
 	tn, _ := p.Types.Scope().Lookup("Compiler").(*types.TypeName)
@@ -559,6 +560,7 @@ func r2SkipsRest(info *types.Info, s ast.Stmt) string {
 }
 
 func ruleR2FnPreregister(c *Ctx) []Obligation {
+	r2LoopCtx = c
 	roles := vmCompRoles(c)
 	comp := c.Pkg("homescript/compiler")
 	fnDefObj := roles.astPkg.Scope().Lookup("AnalyzedFunctionDefinition")
